@@ -195,3 +195,28 @@ Proof.
   - unfold dclosed in *. rewrite dwf_unfold in *. exact Ce.
   - split; [reflexivity|]. split; [reflexivity|]. intros rho. rewrite !dden_unfold. reflexivity.
 Qed.
+
+(* the product (the last step of a derivative) is index-consistent with its own variable list *)
+Lemma union_cons a b a' b' : W a -> W b -> var_names_union a b = Ok (a', b') ->
+  dconsistent tfl (dvars a') a' /\ dconsistent tfl (dvars b') b'.
+Proof.
+  intros [Ca Na] [Cb Nb] H. unfold var_names_union, union_names in H. set (all := sort_strs (dvars a ++ dvars b)) in *.
+  destruct (reset_vars_ok Rc tfl all a (dclosed_mono tfl _ _ a (incl_union_l _ _) Ca)) as (a1 & Ea & Ha1 & Da).
+  destruct (reset_vars_ok Rc tfl all b (dclosed_mono tfl _ _ b (incl_union_r _ _) Cb)) as (b1 & Eb & Hb1 & Db).
+  rewrite Ea in H. cbn [bind] in H. rewrite Eb in H. cbn [bind] in H. inversion H; subst a1 b1.
+  rewrite (dconsistent_vars _ _ _ Ha1), (dconsistent_vars _ _ _ Hb1). split; assumption.
+Qed.
+Lemma const_cons (d : R) vars : dconsistent tfl vars (DE [DNum d] [] [] vars).
+Proof. unfold dconsistent. rewrite dwf_unfold. split; [reflexivity|]. split; [reflexivity|]. split; [intros o []|constructor; [exact I|constructor]]. Qed.
+Theorem d_mul_cons a b r : W a -> W b -> d_mul Rc RDC tb a b = Ok r -> dconsistent tfl (dvars r) r.
+Proof.
+  intros Wa Wb H. unfold d_mul in H. destruct (var_names_union a b) as [[f1 f2]| |] eqn:Eu; cbn [bind] in H; try discriminate.
+  destruct (union_sem a b f1 f2 Wa Wb Eu) as (W1 & W2 & _). destruct (union_cons a b f1 f2 Wa Wb Eu) as [C1 C2].
+  destruct (is_zero Rc RDC f1 || is_zero Rc RDC f2).
+  { cbn in H. inversion H; subst r. apply const_cons. }
+  destruct (is_one Rc RDC f1); [inversion H; subst r; exact C2|].
+  destruct (is_one Rc RDC f2); [inversion H; subst r; exact C1|].
+  destruct W1 as [Cl1 N1]. destruct W2 as [Cl2 N2].
+  destruct (operate_bin_ok Rc tb eq (@eq_refl R) (@eq_sym R) (@eq_trans R) eqR_bin eqR_un Rc_assoc f1 f2 s_mul 1%nat find_mul eq_refl Cl1 Cl2) as (e & He & Hc & _).
+  rewrite H in He. inversion He; subst e. rewrite (dconsistent_vars _ _ _ Hc). exact Hc.
+Qed.
